@@ -18,13 +18,11 @@ func TestC01(t *testing.T) {
 		"oracle: Unmarshal into empty root observes equal to the model (leaves, leaf-list sequences, list keys and key leaves, ordered-list order, presence containers) and re-rendering is byte-identical; " +
 		"non-trivial = tree has >=1 keyed-list entry and >=1 union/enum/identityref/decimal64/64-bit/binary leaf; distinct by variant+tree+config")
 	rec.Assume("strings are valid UTF-8; union values are canonical (value of member i is not lexically accepted by an earlier member)")
-	th.WitnessF28(rec)
+	th.WitnessAll(rec)
 	rapid.Check(t, func(rt *rapid.T) {
 		v := th.PickVariant(rt, "vtu", "vtw", "vocc", "voco", "vocu", "voccw")
 		o := model.GenOpts{}
-		if v.Wrapper && rec.Active(th.F28) {
-			o.Avoid = th.AvoidUnionBinary
-		}
+		th.SteerAway(rec, &o)
 		m := model.GenTree(rt, v, o)
 		cfgI := rapid.IntRange(0, 3).Draw(rt, "cfg")
 		var cfg *ygot.RFC7951JSONConfig
